@@ -455,6 +455,12 @@ class Resource(object):
         self.closed += 1
 
 
+class RaisingResource(Resource):
+    def close(self):
+        self.closed += 1
+        raise RuntimeError("close() of %s fails" % self.name)
+
+
 @server.expose
 @server.behavior(instance_mode="session")
 class ResTarget(object):
@@ -489,6 +495,14 @@ class ResTarget(object):
     @server.oneway
     def ow_touch(self, label):
         return None
+
+    def track_raising(self, label):
+        """tracks a resource whose close() fails after having done its work"""
+        r = RaisingResource(label + "-raising")
+        ResTarget.registry["resources"].append((label, r, "tracked"))
+        current_context.track_resource(r)
+        self.mine.append(r)
+        return r.name
 
     def churn(self, label):
         """tracks a short-lived resource that is dropped without being untracked (and collected at once), then a new one - which
